@@ -258,9 +258,21 @@ func (x *Exec) zeroResult(fn *ssa.Function) Val {
 
 // applyContract: modular call — check the precondition, havoc what the callee may assign, assume the postcondition.
 func (x *Exec) applyContract(st *State, pk *Pkg, fn *ssa.Function, fc *FuncContract, args []Val) (result Val) {
-	if fc.Pure || (fn.Signature.Results().Len() == 0 && len(fc.Assigns) == 0) {
-		// the results are uninterpreted applications, not fresh symbols (or there are none: a ghost lemma, whose
-		// postcondition speaks about the caller's own terms): the hypotheses are kept by the ordinary rule
+	if fn.Signature.Results().Len() == 0 && len(fc.Assigns) == 0 {
+		// a ghost lemma: its postcondition speaks about the caller's own terms and was asked for explicitly, so
+		// the slicer always keeps it (its link to the goal may run through function applications only)
+		start := len(x.assumes)
+		r := x.applyContract1(st, pk, fn, fc, args)
+		if x.alwaysKeep == nil {
+			x.alwaysKeep = map[int]bool{}
+		}
+		for i := start; i < len(x.assumes); i++ {
+			x.alwaysKeep[i] = true
+		}
+		return r
+	}
+	if fc.Pure {
+		// the results are uninterpreted applications, not fresh symbols: the hypotheses are kept by the ordinary rule
 		return x.applyContract1(st, pk, fn, fc, args)
 	}
 	x.defining(func() { result = x.applyContract1(st, pk, fn, fc, args) })
